@@ -207,6 +207,13 @@ def emitText (old : OldEnv) (new : Env) : Str :=
 
 /-! ## `--force` bookkeeping of the table actions on `(oldEnviron, os.environ)` -/
 
+/-- what `pushStack("env")` saves: `(os.environ, aliases, oldAliases)` -/
+structure Saved where
+  cur : Env
+  aliases : List (Str × Str)
+  oldAliases : List (Str × Option Str)
+  deriving DecidableEq, Repr
+
 structure SetupSt where
   old : OldEnv
   cur : Env
@@ -214,6 +221,9 @@ structure SetupSt where
   aliases : List (Str × Str) := []
   /-- `Eups.oldAliases` (`None` after `unsetAlias`) -/
   oldAliases : List (Str × Option Str) := []
+  /-- `Eups._stacks["env"]`: `(os.environ, aliases, oldAliases)` saved by `pushStack("env")`, top first.  `oldEnviron`
+  is not part of what is saved. -/
+  stack : List Saved := []
   deriving DecidableEq, Repr
 
 /-- `execute_envSet` with the expanded value `v` (`[]`: the expansion came back empty and the action returns
@@ -254,11 +264,27 @@ def aliasAct (force fwd : Bool) (k v : Str) (s : SetupSt) : SetupSt :=
              oldAliases := if oa.any (·.1 == k) then oa.map (fun p => if p.1 = k then (k, none) else p)
                            else oa ++ [(k, none)] }
 
+/-- `pushStack("env")` (before an optional or nested setup) -/
+def pushAct (s : SetupSt) : SetupSt := { s with stack := ⟨s.cur, s.aliases, s.oldAliases⟩ :: s.stack }
+
+/-- `popStack("env")`: the setup failed, its changes to `os.environ`, `aliases` and `oldAliases` are thrown away —
+what `--force` made `oldEnviron` forget stays forgotten (a pop on an empty stack is a programming error: no change) -/
+def popAct (s : SetupSt) : SetupSt :=
+  match s.stack with
+  | [] => s
+  | top :: r => { s with cur := top.cur, aliases := top.aliases, oldAliases := top.oldAliases, stack := r }
+
+/-- `dropStack("env")`: the setup succeeded, the saved state is discarded -/
+def dropAct (s : SetupSt) : SetupSt := { s with stack := s.stack.drop 1 }
+
 inductive Act
   | envSet (force fwd : Bool) (k v : Str)
   | path (force : Bool) (k v : Str)
   | unset (k : Str)
   | alias (force fwd : Bool) (k v : Str)
+  | push
+  | pop
+  | drop
   deriving DecidableEq, Repr
 
 def Act.run (pinned : Bool) : Act → SetupSt → SetupSt
@@ -266,6 +292,9 @@ def Act.run (pinned : Bool) : Act → SetupSt → SetupSt
   | .path f k v, s => if pinned then pathActPinned f k v s else pathAct f k v s
   | .unset k, s => unsetAct k s
   | .alias f d k v, s => aliasAct f d k v s
+  | .push, s => pushAct s
+  | .pop, s => popAct s
+  | .drop, s => dropAct s
 
 def runActs (pinned : Bool) (acts : List Act) (base : Env) : SetupSt :=
   acts.foldl (fun s a => a.run pinned s) { old := OldEnv.ofEnv base, cur := base }
@@ -332,5 +361,323 @@ def finish (st : Sh) : Option Env := if st.inq then none else exec st.env (endWo
 
 /-- environment after the shell, started with `env`, has evaluated `text`; `none` = outside the fragment -/
 def shEval (env : Env) (text : Str) : Option Env := (feed (clean env) text).bind finish
+
+/-! ## the shell, second layer: function definitions, `echo`, double quotes, exit status
+
+What `app.setup` prints besides `export`/`unset`: `NAME() { BODY ; }` for a new alias, `echo "COMMAND"` for every command
+under `-n`, and the single command `false` when the request failed.  `ShF` puts these on top of the word-level
+machine `stepChar`: a table of shell functions (name → canonical text of the parsed body; a body is parsed, never
+run), the lines written by `echo`, the exit status of the last command, double-quoted text (literal; `$`, backquote
+and backslash inside are outside the fragment).  Everything else is delegated to `stepChar` unchanged. -/
+
+def sEcho : Str := [101, 99, 104, 111]                         -- echo
+
+/-- the alphabetic reserved words of dash and bash: not function names, not first words of a command of a body -/
+def reservedWords : List Str :=
+  [[105,102] /- if -/, [116,104,101,110] /- then -/, [101,108,115,101] /- else -/, [101,108,105,102] /- elif -/,
+   [102,105] /- fi -/, [99,97,115,101] /- case -/, [101,115,97,99] /- esac -/, [102,111,114] /- for -/,
+   [119,104,105,108,101] /- while -/, [117,110,116,105,108] /- until -/, [100,111] /- do -/, [100,111,110,101] /- done -/,
+   [105,110] /- in -/, [102,117,110,99,116,105,111,110] /- function -/, [115,101,108,101,99,116] /- select -/,
+   [116,105,109,101] /- time -/, [99,111,112,114,111,99] /- coproc -/]
+
+/-- a function may be defined under this name inside the fragment: an identifier that is neither a reserved word nor
+one of the commands the model interprets (a function called `export` would change what the later commands do) -/
+def fnNameOk (name : Str) : Bool :=
+  isIdent name && !reservedWords.contains name &&
+    !([sExport, sUnset, sTrue, sFalse, sEcho] : List Str).contains name
+
+/-- reader state inside `{ … }`: the words are kept raw (quotes included), the body is not evaluated -/
+structure Body where
+  /-- finished commands -/
+  cmds : List (List Str) := []
+  args : List Str := []
+  cur : Option Str := none
+  inq : Bool := false
+  /-- progress through `$@` (1 after `$`) or `"$@"` (2 after `"`, 3 after `"$`, 4 after `"$@`) -/
+  pend : Nat := 0
+  deriving DecidableEq, Repr
+
+def Body.endWord (b : Body) : Body :=
+  match b.cur with
+  | none => b
+  | some w => { b with args := b.args ++ [w], cur := none }
+
+/-- end of a command of the body (after `endWord`): its first word must not be a reserved word -/
+def Body.endCmd (b : Body) : Option Body :=
+  match b.args with
+  | [] => some b
+  | w :: _ => if reservedWords.contains w then none else some { b with cmds := b.cmds ++ [b.args], args := [] }
+
+/-- one character of a function body: `inl cmds` = the closing `}` was read at the start of a command -/
+def stepBody (b : Body) (c : Nat) : Option (Sum (List (List Str)) Body) :=
+  if b.inq then some (.inr { b with cur := push b.cur c, inq := c != 39 })
+  else if b.pend == 1 then (if c == 64 then some (.inr { b with cur := push b.cur c, pend := 0 }) else none)
+  else if b.pend == 2 then (if c == 36 then some (.inr { b with cur := push b.cur c, pend := 3 }) else none)
+  else if b.pend == 3 then (if c == 64 then some (.inr { b with cur := push b.cur c, pend := 4 }) else none)
+  else if b.pend == 4 then (if c == 34 then some (.inr { b with cur := push b.cur c, pend := 0 }) else none)
+  else if c == 39 then some (.inr { b with cur := push b.cur c, inq := true })
+  else if c == 36 then some (.inr { b with cur := push b.cur c, pend := 1 })
+  else if c == 34 then some (.inr { b with cur := push b.cur c, pend := 2 })
+  else if c == 32 || c == 9 then some (.inr b.endWord)
+  else if c == 10 then b.endWord.endCmd.map .inr
+  else if c == 59 then (if b.endWord.args.isEmpty then none else b.endWord.endCmd.map .inr)
+  else if c == 125 then (if b.cur.isNone && b.args.isEmpty && !b.cmds.isEmpty then some (.inl b.cmds) else none)
+  else if isSafe c then some (.inr { b with cur := push b.cur c })
+  else none
+
+/-- `a b c` -/
+def joinWith (sep : Str) : List Str → Str
+  | [] => []
+  | [w] => w
+  | w :: r => w ++ sep ++ joinWith sep r
+
+/-- canonical text of a parsed body: words joined by one blank, commands by `; ` -/
+def bodyText (cmds : List (List Str)) : Str := joinWith [59, 32] (cmds.map (joinWith [32]))
+
+inductive Mode
+  | cmd
+  /-- after `NAME(` -/
+  | fnParen (name : Str)
+  /-- after `NAME()` -/
+  | fnBrace (name : Str)
+  /-- after `{` -/
+  | fnOpen (name : Str)
+  | body (name : Str) (b : Body)
+  /-- after the closing `}` -/
+  | afterFn
+  deriving DecidableEq, Repr
+
+structure ShF where
+  sh : Sh
+  /-- shell functions: name → canonical body text -/
+  funcs : Env := []
+  /-- lines written by `echo` -/
+  out : List Str := []
+  /-- exit status of the last command -/
+  status : Nat := 0
+  /-- inside double quotes -/
+  dq : Bool := false
+  /-- the command being read contains a quote character -/
+  q : Bool := false
+  mode : Mode := .cmd
+  deriving DecidableEq, Repr
+
+/-- what a finished simple command does to the function table: `unset -f NAME…` -/
+def fnEffect (args : List Str) (fs : Env) : Env :=
+  match args with
+  | w :: f :: names => if w == sUnset && f == sDashF then names.foldl Env.unset fs else fs
+  | _ => fs
+
+/-- `echo WORDS`: the words joined by one blank; an option-like first word or a backslash (dash's echo interprets
+escapes) is outside the fragment -/
+def echoLine (args : List Str) : Option Str :=
+  if (args.head?.bind (·.head?)) == some 45 then none
+  else if args.any (·.contains 92) then none
+  else some (joinWith [32] args)
+
+/-- `unset NAME…` without `-f`: bash removes the *function* NAME when there is no variable of that name, dash never
+does — such a command is outside the fragment -/
+def unsetVarsOk (env fs : Env) : List Str → Bool
+  | [] => true
+  | n :: r => (env.has n || !fs.has n) && unsetVarsOk (env.unset n) fs r
+
+def stepF (st : ShF) (c : Nat) : Option ShF :=
+  match st.mode with
+  | .cmd =>
+    if st.sh.inq then (stepChar st.sh c).map fun s => { st with sh := s }
+    else if st.dq then
+      if c == 34 then some { st with dq := false }
+      else if c == 36 || c == 96 || c == 92 then none
+      else some { st with sh := { st.sh with cur := push st.sh.cur c } }
+    else if c == 34 then some { st with dq := true, q := true, sh := { st.sh with cur := some (st.sh.cur.getD []) } }
+    else if c == 39 then (stepChar st.sh c).map fun s => { st with sh := s, q := true }
+    else if c == 40 then
+      match st.sh.args, st.sh.cur with
+      | [], some name =>
+        if fnNameOk name && !st.q then some { st with sh := clean st.sh.env, mode := .fnParen name } else none
+      | _, _ => none
+    else if c == 10 || c == 59 then
+      match (endWord st.sh).args with
+      | [] => if c == 59 then none else some st
+      | w :: rest =>
+        if w == sEcho then
+          (echoLine rest).map fun l => { st with sh := clean st.sh.env, out := st.out ++ [l], status := 0, q := false }
+        else if w == sUnset && rest.head? != some sDashF && !unsetVarsOk st.sh.env st.funcs rest then none
+        else
+          (stepChar st.sh c).map fun s =>
+            { st with sh := s, funcs := fnEffect (w :: rest) st.funcs, status := if w == sFalse then 1 else 0, q := false }
+    else (stepChar st.sh c).map fun s => { st with sh := s }
+  | .fnParen name => if c == 41 then some { st with mode := .fnBrace name } else none
+  | .fnBrace name =>
+    if c == 32 || c == 9 || c == 10 then some st
+    else if c == 123 then some { st with mode := .fnOpen name }
+    else none
+  | .fnOpen name => if c == 32 || c == 9 || c == 10 then some { st with mode := .body name {} } else none
+  | .body name b =>
+    match stepBody b c with
+    | none => none
+    | some (.inr b') => some { st with mode := .body name b' }
+    | some (.inl cmds) => some { st with mode := .afterFn, funcs := st.funcs.set name (bodyText cmds), status := 0 }
+  | .afterFn =>
+    if c == 32 || c == 9 then some st
+    else if c == 10 || c == 59 then some { st with mode := .cmd }
+    else none
+
+def feedF (st : ShF) (text : Str) : Option ShF := text.foldlM stepF st
+
+/-- end of the text: a pending command is run as if a newline followed -/
+def finishF (st : ShF) : Option ShF :=
+  if st.dq || st.sh.inq then none
+  else match st.mode with
+    | .afterFn => some { st with mode := .cmd }
+    | .cmd => stepF st 10
+    | _ => none
+
+def startF (env funcs : Env) : ShF := { sh := clean env, funcs := funcs }
+
+/-- the shell started with the exported environment `env` and the functions `funcs` has evaluated `text`:
+environment, functions, lines echoed, exit status; `none` = outside the fragment -/
+def shEvalF (env funcs : Env) (text : Str) : Option ShF := (feedF (startF env funcs) text).bind finishF
+
+/-! ## csh: how a word of the emitted text is read (from the manual; no csh binary is installed)
+
+A word is a run of ordinary characters or a single-quoted string.  Inside single quotes every character is literal,
+there is no way to write a quote, and an unescaped newline ends the command (`Unmatched '`): `none`. -/
+
+/-- the value csh takes from the word after `setenv NAME ` -/
+def cshWord (w : Str) : Option Str :=
+  match w with
+  | [] => some []
+  | 39 :: r =>
+    match r.reverse with
+    | 39 :: innerRev =>
+      let inner := innerRev.reverse
+      if inner.all (fun c => c != 39 && c != 10 && c != 33) then some inner else none
+    | _ => none
+  | _ => if w.all isSafe then some w else none
+
+/-- one command of the csh dialect applied to the environment: `setenv NAME WORD` / `unsetenv NAME`; aliases leave it
+alone; `none` = csh would not read the command as intended -/
+def cshApply (env : Env) : Cmd → Option Env
+  | .setVar k v => if isIdent k then (cshWord (emitVal v)).map fun x => env.set k x else none
+  | .unsetVar k => if isIdent k then some (env.unset k) else none
+  | .aliasDef _ _ => some env
+  | .aliasDel _ => some env
+
+def cshApplyAll (cmds : List Cmd) (env : Env) : Option Env := cmds.foldlM cshApply env
+
+/-! ## the command line: `setupcmd.EupsSetup.run` / `execute` and the wrapper `bin/eups_setup`
+
+What reaches the caller's shell is the standard output of `eups_setup` (evaluated) — the exit status of the Python
+process is visible to the wrapper only.  `runCli` models the glue around `eups.setup`: which option combinations end
+before anything is printed (status 2, 3), which exceptions make the wrapper print `false` (status 1, 4, 255), and
+that otherwise the command list is printed joined by `";\n"`. -/
+
+structure Cli where
+  help : Bool := false
+  version : Bool := false
+  list : Bool := false
+  unsetup : Bool := false
+  /-- `-j` -/
+  nodepend : Bool := false
+  /-- `-S` -/
+  maxDepth : Int := -1
+  /-- `-m` -/
+  tablefile : Option Str := none
+  /-- `-r` -/
+  productDir : Option Str := none
+  /-- positional arguments -/
+  args : List Str := []
+  deriving DecidableEq, Repr
+
+/-- the facts about the file system and the database that the glue looks at -/
+structure CliWorld where
+  /-- `os.path.exists(tablefile)` -/
+  tablefileExists : Bool := false
+  /-- `<productDir>/ups` is a directory -/
+  upsIsDir : Bool := false
+  /-- the products that have a table file in that directory -/
+  tables : List Str := []
+  /-- `Eups.findProduct(product, version)` finds something (asked only for `-r DIR PRODUCT VERSION`) -/
+  found : Bool := false
+  deriving DecidableEq, Repr
+
+/-- what happens inside the `try` of `execute` (creation of `Eups`, VRO, `eups.setup`) -/
+inductive Inner
+  | returned (cmds : List Str)
+  | eupsException
+  | otherException
+  deriving DecidableEq, Repr
+
+structure CliResult where
+  /-- text written to standard output (`none`: nothing, not even a newline) -/
+  stdout : Option Str
+  /-- exit status of the process -/
+  status : Nat
+  deriving DecidableEq, Repr
+
+/-- `os.path.basename` -/
+def basename (p : Str) : Str := p.foldl (fun acc c => if c == 47 then [] else acc ++ [c]) []
+
+/-- `os.path.splitext(b)[0]` for a name without `/`: the last dot that is not among the leading dots splits -/
+def stem (b : Str) : Str :=
+  let lead := b.takeWhile (· == 46)
+  let rest := b.dropWhile (· == 46)
+  if rest.contains 46 then lead ++ ((rest.reverse.dropWhile (· != 46)).drop 1).reverse else b
+
+/-- `utils.guessProduct(<productDir>/ups, productName)`; `none` = `RuntimeError` -/
+def guessProduct (w : CliWorld) (name : Option Str) : Option Str :=
+  if !w.upsIsDir || w.tables.isEmpty then name
+  else match name with
+    | some n => if w.tables.contains n then some n else none
+    | none => match w.tables with
+      | [t] => some t
+      | _ => none
+
+def sNone : Str := [110, 111, 110, 101]                       -- none
+
+/-- the wrapper's `except Exception` branch: `print("false")`, `sys.exit(e.status)` -/
+def cliFailed (status : Nat) : CliResult := { stdout := some (sFalse ++ [10]), status := status }
+
+/-- the table file that counts: `--table` is ignored by `unsetup` -/
+def Cli.tf (c : Cli) : Option Str := if c.unsetup then none else c.tablefile
+
+/-- a product named by its table file only (`setup -m FILE`): name and directory come from the file's path -/
+def Cli.fromTable (c : Cli) : Bool := c.tf.isSome && c.args.head?.isNone
+
+/-- the product name before `guessProduct` -/
+def Cli.name1 (c : Cli) : Option Str := if c.fromTable then c.tf.map (fun t => stem (basename t)) else c.args.head?
+
+/-- `self.opts.productDir` is set (by `-r`, or from the table file's directory) -/
+def Cli.hasDir (c : Cli) : Bool := c.productDir.isSome || c.fromTable
+
+def Cli.guess (c : Cli) (w : CliWorld) : Option Str := if c.hasDir then guessProduct w c.name1 else c.name1
+
+/-- the product name `eups.setup` is called with -/
+def Cli.name2 (c : Cli) (w : CliWorld) : Option Str := if c.hasDir && (c.guess w).isSome then c.guess w else c.name1
+
+/-- the exits of `run`/`execute` before the `try` block: `some r` = the run ends here with `r` -/
+def cliEarly (c : Cli) (w : CliWorld) : Option CliResult :=
+  if c.help || c.version then some { stdout := none, status := 0 }
+  else if c.list then some { stdout := none, status := 2 }
+  else if c.tf.isSome && !w.tablefileExists && c.tf != some sNone then some { stdout := none, status := 3 }
+  else if !c.hasDir && c.name1.isNone then some { stdout := none, status := 3 }
+  else if c.hasDir && (c.guess w).isNone && c.tf.isNone then some (cliFailed 4)       -- RuntimeError, `e.status = 4`
+  else if (c.name2 w).isNone then some { stdout := none, status := 3 }
+  else if c.nodepend && c.maxDepth > 0 then some { stdout := none, status := 3 }
+  else none
+
+/-- the `try` block -/
+def cliInner (c : Cli) (w : CliWorld) : Inner → CliResult
+  | .eupsException => cliFailed 1
+  | .otherException => cliFailed 255                                                  -- `e.status = -1`
+  | .returned cmds =>
+    if c.productDir.isSome && c.tf.isNone && (c.args.drop 1).head?.isSome && !w.found then { stdout := none, status := 3 }
+    else { stdout := some (join cmds ++ [10]), status := 0 }
+
+def runCli (c : Cli) (w : CliWorld) (inner : Inner) : CliResult :=
+  match cliEarly c w with
+  | some r => r
+  | none => cliInner c w inner
 
 end EupsModel.ShellEmit
